@@ -7,6 +7,7 @@ package webp
 
 import (
 	"bytes"
+	"encoding/binary"
 	"errors"
 	"fmt"
 	"image"
@@ -216,13 +217,33 @@ func encodeFrameForAnimation(img image.Image, isLossless bool, quality int) ([]b
 		Lossless: isLossless,
 		Quality:  float32(quality),
 		Method:   4,
+		// Alpha is always coded losslessly (library defaults; the zero values
+		// would mean "uncompressed, unfiltered, quality 0 = 2 alpha levels").
+		AlphaCompression: -1,
+		AlphaFiltering:   -1,
+		AlphaQuality:     -1,
 	}
 	if isLossless {
 		bs, _, err := encodeLossless(img, opts)
 		return bs, err
 	}
-	bs, _, err := encodeLossy(img, opts)
-	return bs, err
+	bs, alphaData, _, err := encodeLossyWithAlpha(img, opts)
+	if err != nil || alphaData == nil {
+		return bs, err
+	}
+	// The muxer expects the alpha plane as an ALPH chunk (header, payload,
+	// padding to even size) in front of the VP8 bitstream; it splits the two
+	// again when writing the ANMF chunk (mux.splitAlphaAndBitstream).
+	out := make([]byte, 0, container.ChunkHeaderSize+len(alphaData)+1+len(bs))
+	var hdr [container.ChunkHeaderSize]byte
+	binary.LittleEndian.PutUint32(hdr[0:4], container.FourCCALPH)
+	binary.LittleEndian.PutUint32(hdr[4:8], uint32(len(alphaData)))
+	out = append(out, hdr[:]...)
+	out = append(out, alphaData...)
+	if len(alphaData)%2 != 0 {
+		out = append(out, 0)
+	}
+	return append(out, bs...), nil
 }
 
 // simpleEncodeForAnimation encodes an image as a complete simple (non-animated)
@@ -233,6 +254,10 @@ func simpleEncodeForAnimation(img image.Image, isLossless bool, quality float32)
 		Lossless: isLossless,
 		Quality:  quality,
 		Method:   4,
+		// Alpha is always coded losslessly (see encodeFrameForAnimation).
+		AlphaCompression: -1,
+		AlphaFiltering:   -1,
+		AlphaQuality:     -1,
 	}
 	if err := Encode(&buf, img, opts); err != nil {
 		return nil, err
